@@ -24,6 +24,11 @@ def fsx_stream(run, n, label='doer-model'):
             run.count(f'{label}:cmd:{m[0]}')
         run.cov['traces_validated_against_impl'] += 1
     run.cov['disagreements_checked'] += len(cases)
+    for c in cases:
+        msg = fsx.oracle_received_bytes(c)
+        if msg:
+            run.violation(dict(kind='oracle-failed-on-implementation', layer='L3', oracle='a completely received file holds the concatenation of its parts and the time sent with the last', message=msg, **fsx.describe(c)))
+            break
     if bad:
         c = min(bad, key=lambda c: len(c['cmds']))
         run.violation(dict(kind='correspondence-broken', correspondence=f'L3/{label}', disagreeing_cases=len(bad), **fsx.describe(c),
